@@ -188,8 +188,87 @@ def pl_values(rng, ct, pool):
     return vals
 
 
+def gen_twins_case(rng):
+    """same-hash / different-name twins in the containers that filter *loaded* signatures (LinearIndex, LazyLinearIndex,
+    SBT without manifest, LCA database) and, for contrast, through a manifest; name-type and tuple picklists that
+    separate the twins, include and exclude; every picklist object is used by several selects on several collections"""
+    lines = []
+    k = rng.choice([21, 31])
+    sc = rng.choice([1000, 2000])
+    names = [x for x in dict.fromkeys(NAMES) if x]
+    rng.shuffle(names)
+    pool = [Sig(i, k, "DNA", 0, sc, False, names[i], rand_hashes(rng, i)) for i in range(rng.randint(3, 5))]
+    twins = []
+    for t in rng.sample(pool, k=rng.randint(1, 2)):
+        i = len(pool)
+        if rng.random() < 0.5:
+            nm = ident_of(t.name) + " twin strain %d" % i          # same identifier
+        else:
+            nm = "TWIN_%d.%d %s" % (i, rng.randint(1, 3), t.name)   # another identifier
+        tw = Sig(i, t.ksize, t.mol, t.num, t.scaled, t.abund, nm, t.hashes)
+        # the twin goes before or after its original: the first one seen must not decide for the other
+        if rng.random() < 0.5:
+            pool.append(tw)
+        else:
+            pool.insert(pool.index(t), tw)
+        twins.append((t, tw))
+    for j, s in enumerate(pool):
+        s.i = j
+    queries = [Sig(50, k, "DNA", 0, sc, False, "query 0", sorted({h for t, tw in twins for h in t.hashes[-1:]} | {1, 2}))]
+    for s in pool + queries:
+        lines.append(s.line())
+    kinds = rng.sample(["linear", "lazy", "sbt", "lca", "multi", "zip", "sbtz"], k=3)
+    if not any(x in kinds for x in ("linear", "lazy", "sbt", "lca")):
+        kinds[0] = rng.choice(["linear", "lazy", "sbt", "lca"])
+    colls = []
+    for h, kind in enumerate(kinds):
+        ms = list(pool)
+        if kind == "sbtz":
+            ms = list({s.md5: s for s in ms}.values())
+        extra = [str(k), "DNA", str(sc)] if kind == "lca" else []
+        lines.append(" ".join([f"coll {h} {kind}", ",".join(str(s.i) for s in ms)] + extra))
+        colls.append((h, kind))
+    h = len(colls)
+    pls = []
+    p = 0
+    for t, tw in twins:
+        for who in (t, tw):
+            p += 1
+            ct = rng.choice(["name", "name", "ident", "identprefix", "manifest", "gather", "prefetch", "search"])
+            sty = rng.choice(["inc", "exc"])
+            if ct in META:
+                vals = [hx(who.name) + ":" + hx(who.md5)]
+            elif ct == "name":
+                vals = [hx(who.name)]
+            elif ct == "ident":
+                vals = [hx(ident_of(who.name))]
+            else:
+                vals = [hx(ident_of(who.name).split(".")[0])]
+            other = rng.choice(pool)
+            if other is not t and other is not tw and rng.random() < 0.5:
+                vals.append((hx(other.name) + ":" + hx(other.md5)) if ct in META else hx(pick_key(ct, other.name, other.md5)))
+            lines.append(" ".join([f"pl {p} {ct} {sty}"] + vals))
+            pls.append(p)
+    for c, kind in colls:
+        use = pls if kind not in INPLACE else [rng.choice(pls)]
+        for pp in use:
+            lines.append(f"sel {h} {c} p={pp}")
+            lines.append(f"sigs {h}")
+            if rng.random() < 0.6:
+                lines.append(f"search {h} 50")
+            h += 1
+        if kind in ("linear", "lazy") and rng.random() < 0.6:
+            # the same picklist object once more, after it has seen the whole collection
+            lines.append(f"sel {h} {c} p={pls[0]} k={k}")
+            lines.append(f"sigs {h}")
+            h += 1
+    return lines
+
+
 def gen_case(rng, flavour):
-    """flavours: mixed | inplace | sqlite | picklists | collide"""
+    """flavours: mixed | inplace | sqlite | picklists | collide | twins"""
+    if flavour == "twins":
+        return gen_twins_case(rng)
     lines = []
     pool = []
     nsig = rng.randint(4, 8)
